@@ -210,3 +210,35 @@ def canon_rest(req, ans):
                 import re
                 return re.sub(r" \| rest=[0-9?]+", "", ans)
     return ans
+
+
+HEADS = [0x00, 0x01, 0x7f, 0x80, 0x81, 0xfe, 0xff]
+LEAF_READERS = {
+    0x02: ["T u8", "T ou8", "T u16", "T u32", "T u64", "T integer", "T unsigned", "T skipu8if 127", "tv X u8", "tv X u16", "tv X u32", "tv X u64",
+           "tpi u2 [ int i8 ]", "tpi u2 [ int i16 ]", "tpi u2 [ int i32 ]", "tpi u2 [ int i64 ]", "tpi u2 [ int i128 ]",
+           "tpi u2 [ int u8 ]", "tpi u2 [ int u16 ]", "tpi u2 [ int u32 ]", "tpi u2 [ int u64 ]", "tpi u2 [ int u128 ]",
+           "tpi u2 [ integer ]", "tpi u2 [ unsigned ]"],
+    0x01: ["T bool", "T obool", "tpi u1 [ bool ]"],
+    0x05: ["T null", "T onull", "tpi u5 [ null ]", "tv X null"],
+    0x06: ["T oid", "T ooid", "T oidskip", "T oidskipif 2a03", "tpi u6 [ oid ]", "tpi u6 [ oidskip ]"],
+    0x03: ["T bits", "T bitsskip", "tv X bits", "tv X bitsskip"],
+    0x04: ["T os", "T oos", "tv X os"],
+    0x0c: ["T rs utf8", "tv X rs utf8"],
+    0x12: ["T rs num"], 0x13: ["T rs print"], 0x16: ["T rs ia5"],
+}
+
+def leaf_battery(rng, n):
+    """(mode, data, script): typed readers on boundary / malformed leaf contents"""
+    out = []
+    tags = list(LEAF_READERS)
+    for _ in range(n):
+        t = rng.choice(tags) if rng.random() < 0.5 else 0x02
+        k = rng.choice([0, 1, 2, 2, 3, 3, 4, 5, 9, 17])
+        c = bytes(rng.choice(HEADS) if (i < 2 and rng.random() < 0.8) else rng.randrange(256) for i in range(k))
+        enc = bytes([t]) + length(len(c)) + c
+        if rng.random() < 0.15:
+            enc = enc + bytes([rng.choice([0x05, 0x02, 0x00])]) + b"\x00"
+        if rng.random() < 0.1:
+            enc = enc[:-1]
+        out.append((rng.choice(["ber", "cer", "der"]), enc, rng.choice(LEAF_READERS[t])))
+    return out
